@@ -44,7 +44,7 @@ ASSUMPTIONS = [
     "whether a caller arriving after expiry/eviction of an in-flight entry starts a new invocation is unspecified (either is accepted)",
     "gates stand for external events; below them the asyncio ready queue is FIFO and never permuted",
 ]
-MINIMUMS = {"shared_waiters_with_cancel": 300, "expiry_in_flight": 200, "eviction_in_flight": 200, "monitor:single-flight": 1000, "monitor:delivery": 3000, "shared_cancel_with_scoped_callers": 100, "callers_of_self_cancelled_invocations": 100, "set:schedules": 1500}
+MINIMUMS = {"shared_waiters_with_cancel": 300, "expiry_in_flight": 200, "eviction_in_flight": 200, "monitor:single-flight": 1000, "monitor:delivery": 3000, "shared_cancel_with_scoped_callers": 100, "callers_of_self_cancelled_invocations": 100, "set:schedules": 1500, "callers_started_by_the_shared_invocation_itself": 12}
 JOBS = {"quick": 4, "thorough": 16}
 LEVEL_TEXT = (
     "For every configuration of 2-3 (thorough: 2-4) callers over 1-2 keys (cancellers, expiry, limit 1/2, value/exception outcomes) the gate-release orders are explored by "
@@ -434,7 +434,94 @@ def random_config(rng: random.Random) -> dict[str, Any]:
     return cfg
 
 
+def run_descendant_callers(R: Recorder, case: dict[str, Any], verbose: bool = False) -> None:
+    """a caller that was started BY the shared invocation (a detached task / a loop callback / a ctx.spawn'ed task the cached function kicks
+    off and does not wait for - e.g. a refresh-ahead or a prefetch of related data that needs the same value) is a caller like any other:
+    it shares the invocation while it is in flight, and is served from the entry afterwards"""
+    from haiway import cache, ctx
+
+    flavour, how, when = case["flavour"], case["how"], case["when"]
+    calls = {"n": 0}
+    got: dict[str, Any] = {}
+    value = ("value", object())
+
+    async def main() -> None:
+        loop = asyncio.get_running_loop()
+        release = loop.create_future()
+        descendants: list[asyncio.Task[Any]] = []
+
+        async def descendant(target: Any) -> None:
+            if when == "after":
+                await release
+                await asyncio.sleep(0)
+                await asyncio.sleep(0)
+            try:
+                got["descendant"] = ("value", await target("k"))
+            except BaseException as exc:  # noqa: BLE001
+                got["descendant"] = ("raise", exc)
+
+        async def body(target: Any) -> Any:
+            calls["n"] += 1
+            if how == "create_task":
+                descendants.append(loop.create_task(descendant(target)))
+            elif how == "call_soon":
+                loop.call_soon(lambda: descendants.append(loop.create_task(descendant(target))))
+            else:
+                descendants.append(ctx.spawn(descendant, target))
+            await asyncio.sleep(0)
+            await asyncio.sleep(0)
+            if when == "in-flight":
+                await release  # the descendant is already waiting for this very invocation by now
+            return value
+
+        if flavour == "function":
+            @cache(limit=2)
+            async def fetch(key: str) -> Any:
+                return await body(fetch)
+
+            target = fetch
+        else:
+            class Service:
+                @cache(limit=2)
+                async def fetch(self, key: str) -> Any:
+                    return await body(self.fetch)
+
+            target = Service().fetch
+
+        async with ctx.scope("descendant-callers"):
+            first = loop.create_task(target("k"))
+            for _ in range(6):
+                await asyncio.sleep(0)
+            release.set_result(None)
+            try:
+                got["first"] = ("value", await first)
+            except BaseException as exc:  # noqa: BLE001
+                got["first"] = ("raise", exc)
+            for _ in range(10):
+                await asyncio.sleep(0)
+            await asyncio.gather(*descendants, return_exceptions=True)
+
+    try:
+        asyncio.run(main())
+    except BaseException as exc:  # noqa: BLE001
+        got["program"] = repr(exc)
+    R.case(case, nontrivial=True)
+    R.count("callers_started_by_the_shared_invocation_itself")
+    w = {"family": "descendant-caller", "how": how, "when": when, "flavour": flavour}
+    if verbose:
+        print(got, calls)
+    R.monitor("single-flight", calls["n"] == 1 and "program" not in got, where={**w, "kind": "invoked-again" if calls["n"] > 1 else "program-failed"},
+              detail=f"{calls['n']} invocations for one key with one caller and one caller started by the invocation itself; {got}", case=case)
+    for who in ("first", "descendant"):
+        res = got.get(who)
+        R.monitor("delivery", res is not None and res[0] == "value" and res[1] is value, where={**w, "kind": "outcome-not-delivered", "caller": who},
+                  detail=f"caller '{who}' ended {res!r}; the shared invocation returned {value!r}; all: {got}", case=case)
+
+
 def run(R: Recorder, tier: str, seed: int, shard: int, nshards: int) -> None:
+    if shard == 0:
+        for flavour, how, when in itertools.product(("function", "method"), ("create_task", "call_soon", "spawn"), ("in-flight", "after")):
+            run_descendant_callers(R, {"descendant_callers": True, "flavour": flavour, "how": how, "when": when})
     cap, extra = CAP[tier]
     R.flags["exhaustive_core"] = f"DFS over gate-release orders per configuration of 2-3 callers, cap {cap} schedules (+{extra} random when larger)"
     rng = random.Random(f"C13/{seed}/{shard}")
@@ -456,6 +543,9 @@ def run(R: Recorder, tier: str, seed: int, shard: int, nshards: int) -> None:
 
 
 def replay(R: Recorder, case: dict[str, Any]) -> None:
+    if case.get("descendant_callers"):
+        run_descendant_callers(R, case, verbose=True)
+        return
     ch = Chooser(case["choices"], "first")
     log = run_schedule(case["cfg"], ch)
     judge(R, case["cfg"], ch, log, verbose=True)
